@@ -38,11 +38,13 @@ def names_of(sh):
     return out
 
 def classify(x, y):
+    if [t.lower() for t in flat(x)] == [t.lower() for t in flat(y)] and flat(x) != flat(y): return 'case-folded'
     if flat(x) == flat(y): return 'arity-erased'
     if any('_' in n for n in names_of(x) + names_of(y)): return 'name-spells-encoding'
     return 'unclassified'
 
-WHAT = {'arity-erased': "encode_ty joins components with '_' and records no arity: differently grouped types get one encoding",
+WHAT = {'case-folded': 'the reference-cell struct name lower-cases the encoded element type: types that differ only in letter case share one name',
+        'arity-erased': "encode_ty joins components with '_' and records no arity: differently grouped types get one encoding",
         'name-spells-encoding': "encode_ty does not escape '_' in user type names: a name containing '_' collides with a structured type",
         'unclassified': 'two distinct concrete types get the same encoding (outside every known collision class)'}
 
@@ -53,10 +55,10 @@ def native_encode(shapes):
     if rc != 0 or len(outs) != len(shapes): raise Unsupported('native driver failed: ' + errt[-300:])
     return [o.get('ok') for o in outs]
 
-def ob_encode(r, tier, seed, top, inner, leaves, names, vec_len, depth, lens=(1, 2), path_limit=400000):
+def ob_encode(r, tier, seed, top, inner, leaves, names, vec_len, depth, lens=(1, 2), path_limit=400000, fn='encode_ty'):
     W = e2.fresh_world(CRATES)
     TY = W.tt.find_adt(['tast', 'Ty'], 'compiler')
-    r.bounds = 'all tast::Ty values of depth <= %d: top constructor in %s, inner constructors in %s, leaves %s, nominal names %s, component lists of length %d..%d, array lengths %s' % (
+    r.bounds = fn + ' on all tast::Ty values of depth <= %d: top constructor in %s, inner constructors in %s, leaves %s, nominal names %s, component lists of length %d..%d, array lengths %s' % (
         depth, top, inner, leaves, list(names), vec_len[0], vec_len[1], list(lens))
     r.assumptions = ['TVar excluded (encode_ty is applied to concrete types after monomorphisation)',
                      'TEnum and TStruct of one name are the same entity (a program declares a name once) - only TStruct is generated',
@@ -70,7 +72,7 @@ def ob_encode(r, tier, seed, top, inner, leaves, names, vec_len, depth, lens=(1,
               field_hooks={('Ty', 'TApp', 'ty'): lambda sp, ex, d, p: ms.mkbox(Agg(TY.key, TY.vindex('TStruct'), [sp.make_string(ex, p)]))})
     def entry(ex):
         h = [spec.root(ex, 'tast::Ty', tag='t')]
-        out = ex.call('encode_ty', [ms.Ref(h, 0)])
+        out = ex.call({'encode_ty': 'encode_ty', 'go_type_name_for': 'go::goast::go_type_name_for', 'ref_struct_name': 'go::goast::ref_struct_name'}[fn], [ms.Ref(h, 0)])
         return ms.pystr(out), shape(force(ex, h[0]), TY)
     res = e2.explore(r, W, entry, [], path_limit=path_limit)
     buckets = {}
@@ -90,6 +92,8 @@ def ob_encode(r, tier, seed, top, inner, leaves, names, vec_len, depth, lens=(1,
                 k = classify(uniq[i], uniq[j])
                 if k not in found: found[k] = (uniq[i], uniq[j], enc)
     for k, (x, y, enc) in found.items():
+        if fn != 'encode_ty':
+            r.findings.append(Finding(k, '%s: %s gives %r for both %s and %s' % (WHAT[k], fn, enc, json.dumps(x), json.dumps(y)), {'a': x, 'b': y}, True, 'strings produced by the real %s MIR' % fn)); continue
         nat = native_encode([x, y])
         r.findings.append(Finding(k, '%s: both %s and %s encode to %r' % (WHAT[k], json.dumps(x), json.dumps(y), nat[0]), {'a': x, 'b': y, 'native': nat}, nat[0] is not None and nat[0] == nat[1]))
     r.samples = [{'type': b[0], 'encode_ty': e} for e, b in list(buckets.items())[:3]]
@@ -109,4 +113,10 @@ def obligations(prefix):
     for t in [c for c in COMPOSITE if c != 'TFunc']:
         obs.append(Ob(prefix + '-depth2w-' + t, 'encode_ty injective: depth 2 under %s, wider' % t, ob_encode, ('thorough',), 20,
                       dict(top=[t], inner=COMPOSITE + small_leaves + ['TParam'], leaves=small_leaves + ['TParam'], names=('A', 'A_B'), vec_len=(0, 2), depth=2, lens=(1, 2))))
+    if prefix.startswith('O19'):
+        nominal = ['TInt32', 'TBool', 'TString', 'TStruct', 'TParam']
+        obs.append(Ob('O19.4b-ref_struct_name', 'ref_struct_name injective (element types of depth <= 1)', ob_encode, ('quick', 'thorough'), 3,
+                      dict(top=['TStruct', 'TInt32', 'TBool', 'TTuple', 'TVec', 'TRef'], inner=['TStruct', 'TInt32'], leaves=['TStruct', 'TInt32'], names=('A', 'a', 'A_B'), vec_len=(0, 2), depth=1, fn='ref_struct_name')))
+        obs.append(Ob('O19.4b-go_type_name_for', 'go_type_name_for injective (tuple / array / vec / ref / fn helper type names, depth <= 1)', ob_encode, ('quick', 'thorough'), 3,
+                      dict(top=['TTuple', 'TArray', 'TVec', 'TRef', 'TFunc', 'TStruct', 'TInt32'], inner=['TStruct', 'TInt32', 'TBool'], leaves=['TStruct', 'TInt32', 'TBool'], names=('A', 'B', 'A_B', 'Tuple2_A_B'), vec_len=(0, 2), depth=1, fn='go_type_name_for')))
     return obs
